@@ -65,7 +65,19 @@ def ensure_driver():
 
 
 def build(cfg="default", repo=REPO, cache=CACHE):
-    """Run the driver over `repo` for one configuration; returns the fact file path."""
+    """Run the driver over `repo` for one configuration; returns the fact file path.
+    Concurrent checks share the cache, so generation is serialised per configuration by a file lock."""
+    import fcntl
+    os.makedirs(cache, exist_ok=True)
+    with open(os.path.join(cache, "facts-%s.lock" % cfg), "w") as lk:
+        fcntl.flock(lk, fcntl.LOCK_EX)
+        try:
+            return _build_locked(cfg, repo, cache)
+        finally:
+            fcntl.flock(lk, fcntl.LOCK_UN)
+
+
+def _build_locked(cfg, repo, cache):
     ensure_driver()
     th = tree_hash(repo)
     outdir = os.path.join(cache, "facts", cfg + "-" + th[:24])
